@@ -2,6 +2,41 @@
 import time
 
 
+def from_bban_sweep(seed, per_country):
+    """BOUNDED: IBAN.from_bban(country text, BBAN text[, validate_bban]) - the alternate validating constructor - lets
+    only library exceptions escape, on sampled texts (valid, perturbed, raw spellings with blanks / lower case /
+    non-ASCII characters)"""
+    import random
+    from props.bictasks import raw_variant
+    from props.ibantasks import IbanTask, table
+    from pyvc import task as T
+    from schwifty import IBAN
+    rnd = random.Random(seed + 17)
+    n = 0
+    for cc in sorted(table()):
+        t = IbanTask(cc)
+        for _ in range(per_country):
+            p = t.sample(rnd)["p"]
+            b = p[4:]
+            texts = [b, raw_variant(rnd, b), b.lower(), b[:-1] + "-", b + " ", "\u0663" + b[1:]]
+            for x in texts:
+                for c2 in (cc, cc.lower(), " " + cc):
+                    for flag in (False, True):
+                        n += 1
+                        o = T.native_obs(lambda: IBAN.from_bban(c2, x, validate_bban=flag))
+                        if isinstance(o, T.Escape):
+                            return n, dict(country=c2, bban=x, validate_bban=flag, outcome=repr(o))
+    return n, None
+
+
+class FromBbanReplay:
+    def native_agree(self, wit):
+        from pyvc import task as T
+        from schwifty import IBAN
+        o = T.native_obs(lambda: IBAN.from_bban(wit["country"], wit["bban"], validate_bban=wit["validate_bban"]))
+        return not isinstance(o, T.Escape), repr(o), "a return or a library exception"
+
+
 def main(seed, tier):
     from props import c01, common, ibantasks
     t0 = time.time()
@@ -13,6 +48,12 @@ def main(seed, tier):
     specs += [("props.ibantasks", "IbanTask", (cc, "from-object")) for cc in ("DE", "GB", "NO", "None")]
     specs += [("props.bictasks", "BicTask", (m,)) for m in ("construct", "validate", "is_valid", "from-object")]
     results = common.run_tasks(specs, seed, tier)
+    n_fb, wit = from_bban_sweep(seed, 3 if tier == "thorough" else 1)
+    results.append(dict(task="from_bban sweep", functions={}, files={}, paths=0, error=None, spec=["props.c05", "FromBbanReplay", []],
+                        obligations=[dict(name=f"IBAN.from_bban lets only library exceptions escape ({n_fb} sampled calls, bounded)",
+                                          kind="bounded", status="discharged" if wit is None else "refuted", backend="cpython",
+                                          secs=0.0, witness=wit,
+                                          detail="" if wit is None else f"replayed natively: {wit}")]))
     return common.finish(
         "C05", results, t0, seed, tier, assumptions=c01.ASSUMPTIONS + [
             "A5 pycountry membership as probed by C04",
